@@ -1184,7 +1184,9 @@ impl Parse for FixWord {
                 kind: ParseWarningKind::DecimalNumberIsTooBig,
             });
             return if integer_part == 2047 {
-                (FixWord::ONE, span_start..span_end)
+                // PLtoTF.2014.62: acc is left equal to unity and the sign is still applied.
+                let one = if negative { FixWord::ONE * -1 } else { FixWord::ONE };
+                (one, span_start..span_end)
             } else {
                 (FixWord::ZERO, span_start..span_end)
             };
